@@ -533,12 +533,11 @@ class C15(Monitor):
         self._files = None
 
     def nprog(self):
-        return 6000 if self.tier == "quick" else 60000
+        return 6000 if self.tier == "quick" else 16000
 
     def programs(self):
         out = list(spaces.with_modes(spaces.prog_Pa()))
-        step = max(1, len(out) // self.nprog())
-        return out[::step][: self.nprog()]
+        return spaces.spread(out, self.nprog())
 
     def cases(self):
         if self.stage == 1:
